@@ -106,15 +106,20 @@ def find_emitters(ctx, rule):
     repo = ctx.repo
     schema, extras = gaf_schema(repo, rule)
     tags_attr = extras["tags_attr"]
+    from ..core import tail_inlined
+
     out = []
-    for f in repo.all_funcs():
-        recs = record_params(f, schema) | ({"self"} if f.cls == extras["class"] else set())
-        if not recs:
+    for f0 in repo.all_funcs():
+        recs0 = record_params(f0, schema) | ({"self"} if f0.cls == extras["class"] else set())
+        if not recs0:
             continue
+        # a function that hands its line to a same-module helper in tail position is analysed with the helper inlined
+        f = tail_inlined(repo, f0) if any(isinstance(st, ast.Return) and isinstance(st.value, ast.Call) and repo.resolve_call(f0, st.value) is not None and repo.resolve_call(f0, st.value).module is f0.module for st in f0.node.body) else f0
+        recs = record_params(f, schema) | ({"self"} if f.cls == extras["class"] else set())
         # candidate 12-column templates
         for n in walk_own(f.node):
             t = None
-            if isinstance(n, (ast.BinOp, ast.JoinedStr)):
+            if isinstance(n, (ast.BinOp, ast.JoinedStr)) or (isinstance(n, ast.Call) and isinstance(n.func, ast.Attribute) and n.func.attr == "format" and isinstance(n.func.value, ast.Constant) and isinstance(n.func.value.value, str)):
                 try:
                     t = tmpl.of_expr(n)
                 except tmpl.TemplateError:
